@@ -8,6 +8,10 @@ use crate::context::Context;
 
 use std::fmt;
 
+// evaluations of one expression that may be under way at a time (see `Expr::run_nested`):
+// every single line the parser admits stays below it
+const MAX_EVALUATION_NESTING: usize = 1000;
+
 /// Assembly uses constant expressions to avoid copying magic numbers around.
 /// Expr represents these constant expressions.
 ///
@@ -110,19 +114,31 @@ impl Expr {
     }
 
     pub fn run(&self, constants: &dyn Context) -> Result<i64, ExprRunError> {
-        self.run_nested(constants, 0, &std::cell::Cell::new(0))
+        self.run_nested(constants, 0, &std::cell::Cell::new(0), 0)
     }
 
     /// `depth` counts how many symbols were resolved on the way here: symbols defined in
     /// terms of each other would otherwise recurse without end. `resolved` counts all symbol
     /// resolutions of one evaluation: definitions that each use the previous one twice
     /// would otherwise take exponential time.
+    ///
+    /// `nesting` counts the evaluations that are under way, operators and symbols together:
+    /// the guards of a line (operators, parentheses) and of a chain of definitions (`depth`)
+    /// are each harmless, but their product is the depth of this recursion.
     fn run_nested(
         &self,
         constants: &dyn Context,
         depth: usize,
         resolved: &std::cell::Cell<usize>,
+        nesting: usize,
     ) -> Result<i64, ExprRunError> {
+        if nesting >= MAX_EVALUATION_NESTING {
+            return Err(ExprRunError::ArithmeticError(format!(
+                "expression with the definitions it uses is nested too deeply (more than {} levels)",
+                MAX_EVALUATION_NESTING
+            )));
+        }
+        let nesting = nesting + 1;
         match self {
             Expr::Ident(ident) => match constants.get_expr(ident) {
                 Some(Expr::Const(address)) => Ok(address),
@@ -136,14 +152,14 @@ impl Expr {
                     resolved.set(resolved.get() + 1);
                     #[cfg(feature = "verif-hooks")]
                     crate::verif_hooks::point("expr.resolve");
-                    expr.run_nested(constants, depth + 1, resolved)
+                    expr.run_nested(constants, depth + 1, resolved, nesting)
                 }
                 None => Err(ExprRunError::MissingIdentifier(ident.clone())),
             },
             Expr::Const(value) => Ok(*value),
             Expr::Func(ident, argument) => {
                 if let Expr::Ident(name) = &**ident {
-                    let value = argument.run_nested(constants, depth, resolved)?;
+                    let value = argument.run_nested(constants, depth, resolved, nesting)?;
                     let ret_val = match name.to_lowercase().as_str() {
                         "low" => (value as u64 & 0xff) as i64,
                         "high" | "byte2" => ((value as u64 & 0xff00) >> 8) as i64,
@@ -182,8 +198,8 @@ impl Expr {
                 }
             }
             Expr::Binary(binary) => {
-                let left = binary.left.run_nested(constants, depth, resolved)?;
-                let right = binary.right.run_nested(constants, depth, resolved)?;
+                let left = binary.left.run_nested(constants, depth, resolved, nesting)?;
+                let right = binary.right.run_nested(constants, depth, resolved, nesting)?;
                 match binary.operator {
                     BinaryOperator::Add => match left.checked_add(right) {
                         Some(value) => Ok(value),
@@ -263,7 +279,7 @@ impl Expr {
             }
             Expr::Unary(unary) => match unary.operator {
                 UnaryOperator::Minus => {
-                    let value = unary.expr.run_nested(constants, depth, resolved)?;
+                    let value = unary.expr.run_nested(constants, depth, resolved, nesting)?;
                     match value.checked_neg() {
                         Some(value) => Ok(value),
                         None => Err(ExprRunError::ArithmeticError(format!(
@@ -273,11 +289,11 @@ impl Expr {
                     }
                 }
                 UnaryOperator::BitwiseNot => {
-                    let value = unary.expr.run_nested(constants, depth, resolved)?;
+                    let value = unary.expr.run_nested(constants, depth, resolved, nesting)?;
                     Ok(!value)
                 }
                 UnaryOperator::LogicalNot => {
-                    let value = unary.expr.run_nested(constants, depth, resolved)?;
+                    let value = unary.expr.run_nested(constants, depth, resolved, nesting)?;
                     Ok((value == 0) as i64)
                 }
             },
